@@ -88,6 +88,7 @@ type c25Case struct {
 	orderByDev bool
 	valCache   map[c25ValKey][]uint64
 	storeCache map[c25Defect][][][][]c25Row
+	failAt     int // storage stub fails on this call (0 = never)
 }
 
 type c25OrderCol struct {
@@ -646,6 +647,9 @@ func (c *c25Case) run(h *requestHandler) (out c25Out, extra []string, err error)
 	p := tableReqParams{req: req, metricMeta: c25Meta, desiredStepMul: c.stepMul, location: loc}
 	load := func(_ context.Context, _ *requestHandler, pq *queryBuilder, lod data_model.LOD, _ bool) ([][]tsSelectRow, error) {
 		c.stubCalls++
+		if c.stubCalls == c.failAt {
+			return nil, errC25Storage
+		}
 		li := -1
 		for i := range c.lods {
 			if c.lods[i].from == lod.FromSec && c.lods[i].to == lod.ToSec && c.lods[i].step == lod.StepSec {
@@ -806,7 +810,7 @@ func TestVerifC25(t *testing.T) {
 		"Non-trivial = the requested window holds at least one row and storage holds at least two; distinct = distinct (LODs, rows per query, grouping, functions, markers, limit, direction).")
 	r.Assume("storage returns each time slot ordered as the ORDER BY clause of the generated query asks (ties impossible: keys are unique per slot)")
 	r.Assume("scalar formula tsValues.value() is trusted; the oracle judges which (storage query, function) lands in which column")
-	n := r.N(60000, 3000000)
+	n := r.N(60000, 2000000)
 	workers := 8
 	if r.Thorough() {
 		workers = 16
@@ -819,6 +823,7 @@ func TestVerifC25(t *testing.T) {
 		}
 	})
 	c25InvalidMarkers(r)
+	c25StorageErrors(r)
 }
 
 func c25Stack() string {
@@ -927,6 +932,13 @@ func c25Judge(r *verifkit.Run, w *verifkit.Worker, h *requestHandler, c *c25Case
 	if w.Index == 0 && i < 3 {
 		r.Sample(c.witness(&actual, &spec, ""))
 	}
+	if i < 400 { // self-check of the attribution search: switches outside the mask change nothing
+		app := c.applicable()
+		full, masked := c25Model(c, c25DAll), c25Model(c, c25DAll&app)
+		if full.signature() != masked.signature() {
+			r.Inconclusive("C25 harness: a switch outside the applicability mask changes the model output")
+		}
+	}
 	if len(extra) == 0 && actual.signature() == spec.signature() {
 		w.Count("cases.agree_with_reference", 1)
 		return
@@ -940,7 +952,21 @@ func c25Judge(r *verifkit.Run, w *verifkit.Worker, h *requestHandler, c *c25Case
 	clauses := c25Clauses(c, &actual, &spec, extra)
 	set, ok := c25Explain(c, &actual, extra)
 	if !ok {
-		key := "C25/unexplained/" + strings.Join(clauses, "+")
+		// signature: the first broken clause that the code as it stands (all known defects
+		// switched on) does not break on this case as well
+		asIs := c25Model(c, c25DAll&c.applicable())
+		known := map[string]bool{}
+		for _, k := range c25Clauses(c, &asIs, &spec, nil) {
+			known[k] = true
+		}
+		first := clauses[0]
+		for _, k := range clauses {
+			if !known[k] {
+				first = k
+				break
+			}
+		}
+		key := "C25/unexplained/" + first
 		if actual.panicked {
 			key = "C25/panic/unexplained"
 		}
@@ -953,6 +979,44 @@ func c25Judge(r *verifkit.Run, w *verifkit.Worker, h *requestHandler, c *c25Case
 		if set&d.bit != 0 {
 			w.Count("defect."+d.short, 1)
 			r.Violation(d.key, d.what, c.witness(&actual, &spec, strings.Join(names, "+")+" (clauses: "+strings.Join(clauses, ", ")+")"))
+		}
+	}
+}
+
+var errC25Storage = fmt.Errorf("verif: injected storage failure")
+
+// a failing storage call must surface as an error, never as a (partial) table
+func c25StorageErrors(r *verifkit.Run) {
+	h := &requestHandler{Handler: &Handler{}}
+	rnd := r.Rand("storage-errors")
+	for i := 0; i < 1500; i++ {
+		c := c25Gen(rnd, h)
+		if err := c25Prepare(h, c); err != nil {
+			return
+		}
+		c.failAt = 1 + rnd.IntN(4)
+		var out c25Out
+		var err error
+		panicked := false
+		func() {
+			defer func() {
+				if recover() != nil {
+					panicked = true
+				}
+			}()
+			out, _, err = c.run(h)
+		}()
+		switch {
+		case panicked:
+			r.Count("storage_errors.case_panicked_first", 1) // the selector-index finding, judged in the main loop
+		case c.stubCalls < c.failAt:
+			r.Count("storage_errors.not_reached", 1)
+		case err == nil || len(out.rows) != 0:
+			r.Case(true, "storage-error/"+c.abstraction())
+			r.Violation("C25/error/storage-error-swallowed", "a failed storage query is not reported: getTableFromLODs returned a table", map[string]any{"failed_call": c.failAt, "calls": c.stubCalls, "rows": out.describe()})
+		default:
+			r.Case(true, "storage-error/"+c.abstraction())
+			r.Count("storage_errors.reported", 1)
 		}
 	}
 }
